@@ -119,6 +119,17 @@ func (s *Staking) processDoubleSignV5(config *params.YouParams, currentDB *state
 	if len(doubleSign.Signs) < 2 {
 		return
 	}
+	// a double sign needs two votes for DIFFERENT block hashes; the same vote listed
+	// twice (or re-signed) proves nothing
+	distinct := make(map[common.Hash]struct{}, len(doubleSign.Signs))
+	for _, info := range doubleSign.Signs {
+		if info != nil {
+			distinct[info.Hash] = struct{}{}
+		}
+	}
+	if len(distinct) < 2 {
+		return
+	}
 
 	log.Info("slashing", "type", EvidenceTypeDoubleSignV5, "parent", parentHeight, "eRound", doubleSign.Round, "eRoundIndex", doubleSign.RoundIndex, "sinerIdx", doubleSign.SignerIdx, "signs", len(doubleSign.Signs))
 	switch {
